@@ -326,10 +326,14 @@ def kf1_attribution(trees, tier="quick"):
         return []
     rnd = random.Random(99)
     rows = []
-    for i, t in enumerate(trees, 1):
-        d = derive(t)
+    CAP = 150          # a mass failure is not the named finding: only the first CAP derivations are examined, the rest stay violations
+    for i, t in enumerate(trees[:CAP], 1):
+        try:
+            d = derive(t)
+        except Exception:
+            continue
         d["i"] = i
-        d["pts"] = points_for(t, "thorough", rnd)
+        d["pts"] = points_for(t, "quick", rnd)
         rows.append(d)
     work = tlcrun.scratch_dir("kf1")
     try:
@@ -339,11 +343,11 @@ def kf1_attribution(trees, tier="quick"):
     finally:
         shutil.rmtree(work, ignore_errors=True)
     verd = {l["i"]: l["v"] for l in res["lines"] if isinstance(l, dict) and "i" in l}
-    out = []
+    out_by_i = {}
     for row in rows:
         v = verd.get(row["i"])
         if v is None:
-            out.append(False)
+            out_by_i[row["i"]] = False
             continue
         kf_any, other = False, False
         for j, st in enumerate(v["steps"]):
@@ -367,5 +371,5 @@ def kf1_attribution(trees, tier="quick"):
                 kf_any = True
             elif bad:
                 other = True
-        out.append(kf_any and not other)
-    return out
+        out_by_i[row["i"]] = kf_any and not other
+    return [out_by_i.get(i, False) for i in range(1, len(trees) + 1)]
